@@ -55,4 +55,48 @@ def Chain (s : DStore) : List Nat → Prop
 def ChainFromTo (s : DStore) (u w : Nat) (l : List Nat) : Prop :=
   Chain s l ∧ l.head? = some u ∧ l.getLast? = some w
 
+/-! ## the documented effect of calls on the edge list alone (no adjacency tables, no order inside a node) -/
+
+/-- graph-level state: how many nodes exist, their names, the edge list -/
+structure EState where
+  n : Nat
+  names : Nat → Str
+  E : List (Nat × Nat)
+
+/-- the graph-level view of a store -/
+def estate (s : DStore) : EState := ⟨s.n, s.names, edges s⟩
+
+/-- the edges `(parent, child)` an assignment-like call asks for; `n` = number of existing nodes (the
+constructor's node gets id `n`) -/
+def asked (n : Nat) : Op → List (Nat × Nat)
+  | .setParents v a _ => (a.items.getD []).map fun p => (p, v)
+  | .setChildren v a _ => (a.items.getD []).map fun c => (v, c)
+  | .rshift v o _ => [(v, o)]
+  | .lshift v o _ => [(o, v)]
+  | .construct _ ps cs _ _ =>
+    ((ps.items.getD []).map fun p => (p, n)) ++ ((cs.items.getD []).map fun c => (n, c))
+  | .delChildren _ => []
+  | .delItem _ _ => []
+
+/-- documented effect of an ACCEPTED call: an assignment adds the asked-for edges that are not there yet;
+`del v.children` removes the edges out of `v`; `del v[name]` removes the edge to the child of that name
+(when there is exactly one); the constructor allocates the next id -/
+def EState.apply (g : EState) : Op → EState
+  | .delChildren v => { g with E := g.E.filter fun e => e.1 != v }
+  | .delItem v nm =>
+    match g.E.filter (fun e => e.1 == v && g.names e.2 == nm) with
+    | [e] => { g with E := g.E.filter fun x => x != e }
+    | _ => g
+  | .construct nm ps cs fp fc =>
+    { n := g.n + 1, names := upd g.names g.n nm,
+      E := g.E ++ (asked g.n (.construct nm ps cs fp fc)).filter fun e => decide (e ∉ g.E) }
+  | op => { g with E := g.E ++ (asked g.n op).filter fun e => decide (e ∉ g.E) }
+
+/-- replay of a history of (call, outcome) pairs: accepted calls have their documented effect, refused
+ones none (constructor calls that raise are excluded by the theorems: they may leave a half-built node) -/
+def EState.replay (g : EState) : List (Op × Outcome) → EState
+  | [] => g
+  | (op, .ok) :: r => EState.replay (g.apply op) r
+  | (_, .rej) :: r => EState.replay g r
+
 end DagStore
